@@ -1,0 +1,24 @@
+//go:build verif
+
+// Safety-sweep contracts (no explicit panic, index/slice in range, allocation
+// sizes non-negative, wire-decoded pointers checked before use) for functions
+// that need no precondition. Generated from a zero-annotation sweep; checked by
+// /verif/govc. Comment-only file.
+package protocol
+
+//@ func protocol.NewPublicKey
+//@   props C10(sweep)
+//@   sweep bounds,panic,make,nilmem,div
+
+//@ func protocol.ParseKeyType
+//@   props C10(sweep)
+//@   sweep bounds,panic,make,nilmem,div
+
+//@ func protocol.PublicKey.parse
+//@   props C10(sweep)
+//@   sweep bounds,panic,make,nilmem,div
+
+//@ func protocol.PublicKey.parseX509
+//@   props C10(sweep)
+//@   sweep bounds,panic,make,nilmem,div
+
